@@ -761,7 +761,7 @@ def wl_flux(ctx, rng):
             if j % 3 == 2:
                 c0_, f0_, w0_ = grids[int(rng.integers(0, max(j // 2, 1)))]
                 guarded(B.bindown, c0_, f0_, grid_width=w0_)
-        for j in rng.integers(0, ng // 2, 6):
+        for j in rng.integers(0, ng, 9):                    # (from anywhere in the history)
             c0_, f0_, w0_ = grids[int(j)]
             guarded(B.bindown, c0_, f0_, grid_width=w0_)
         ctx.observe('same-binner:dozens-of-native-grids-earlier-ones-again')
